@@ -438,7 +438,7 @@ pub fn run(ctx: &Ctx) -> Report {
         }
     });
     let mut rep = Report::new(stats,
-        "random tridiagonal matrices n=1..12 (n=1,2 weighted x10) over Rat, CRat, f64, Complex<f64>, built through all four constructors; classes: generic nonzero, zero sub/super entries, zero pivot forced at a chosen elimination step (every step seen: see zero-pivot-steps sets), zero main entries, triangular. Per case: every (i,j) access, convert, transpose (both), det, &T*&v and T*v, solve vs exact Thomas model (solution or refusal + message), 10 arithmetic/resize forms; f64: exactly representable L*U class mirrored against the Rat model, strictly dominant class by backward error. Plus live-object histories (det/solve/product queries interleaved with index writes, scalar compound assignments and transpose_in_place, compared with the model after every step). Every case non-trivial; distinct = distinct (type,class,diagonals) hashes");
+        "[round 6: one f64 case in eight is long, n=13..96, exactly representable LU class: solve, det, both products, scalar product, construct/index/convert/transpose/arithmetic] random tridiagonal matrices n=1..12 (n=1,2 weighted x10) over Rat, CRat, f64, Complex<f64>, built through all four constructors; classes: generic nonzero, zero sub/super entries, zero pivot forced at a chosen elimination step (every step seen: see zero-pivot-steps sets), zero main entries, triangular. Per case: every (i,j) access, convert, transpose (both), det, &T*&v and T*v, solve vs exact Thomas model (solution or refusal + message), 10 arithmetic/resize forms; f64: exactly representable L*U class mirrored against the Rat model, strictly dominant class by backward error. Plus live-object histories (det/solve/product queries interleaved with index writes, scalar compound assignments and transpose_in_place, compared with the model after every step). Every case non-trivial; distinct = distinct (type,class,diagonals) hashes");
     rep.assumptions = vec!["refusal message accepted if it matches /zero|pivot|singular/i".into(), "f64 dominant systems: backward error <= 64*n*u".into()];
     rep.min_nontrivial = 2000;
     rep
